@@ -659,8 +659,30 @@ func (x *Exec) callRepo(fu *FuncUnit, recv *Value, args []Value, e *ast.CallExpr
 		return x.inlineCall(fu, recv, args, e, st)
 	}
 	x.calleeAbort(fu, uc, st)
-	if uc != nil && len(x.uc.Establishes) > 0 && x.inlineDepth == 0 {
-		x.establishCallPre(fu, uc, recv, args, e, st)
+	if uc != nil && x.inlineDepth == 0 {
+		var pre, post *UseRef
+		for _, u := range x.uc.Establishes {
+			if u.Target == fu.Name {
+				pre = u
+			}
+		}
+		for _, u := range x.uc.Relies {
+			if u.Target == fu.Name {
+				post = u
+			}
+		}
+		if post != nil {
+			// opaque callee used through PART of its contract: the named preconditions are asserted, the call is havoced by
+			// its inferred write set, the named postconditions are assumed (they hold under the callee's full precondition;
+			// the preconditions not asserted here stay listed as entry assumptions of the callee)
+			x.partial = &partialUse{pre: pre, post: post}
+			defer func() { x.partial = nil }()
+			x.modularNote("partial use of the contract of " + fu.Name + ": postconditions " + strings.Join(post.Names, ", ") + " are assumed after its call and discharged by its own obligations")
+			return x.callWithContract(fu, uc, recv, args, e, st)
+		}
+		if pre != nil {
+			x.establishCallPre(fu, uc, recv, args, e, st)
+		}
 	}
 	return x.callOpaqueRepo(fu, recv, args, e, st)
 }
@@ -985,6 +1007,9 @@ func (x *Exec) callWithContract(fu *FuncUnit, uc *UnitContract, recv *Value, arg
 		if !on(r.Tags) {
 			continue
 		}
+		if x.partial != nil && (x.partial.pre == nil || !x.partial.pre.wants(r.Name)) {
+			continue
+		}
 		g := x.specBool(r, st, sp)
 		if mentionsFreeGhost(r.Expr) {
 			x.abstract("precondition " + r.Name + " of " + fu.Name + " quantifies over a ghost witness: assumed at the call site, not checked")
@@ -1052,7 +1077,12 @@ func (x *Exec) callWithContract(fu *FuncUnit, uc *UnitContract, recv *Value, arg
 		}
 	}
 	for _, en := range uc.Ensures {
-		if !on(en.Tags) {
+		if x.partial != nil {
+			// named postconditions regardless of the property tag (discharged in the check of the property they are tagged with)
+			if !x.partial.post.wants(en.Name) {
+				continue
+			}
+		} else if !on(en.Tags) {
 			continue
 		}
 		if en.Assumed {
